@@ -482,6 +482,50 @@ def lifecycle(kind: str) -> list:
         if not pending.done():
             pending.cancel()
             loop.run_ready()
+        # OS-level errors of every usual class, from write() and from drain(): each surfaces as a transport error
+        import errno
+
+        for where in ("write", "drain"):
+            for exc in (OSError(errno.EIO, "io"), TimeoutError(errno.ETIMEDOUT, "timed out"), ConnectionResetError(errno.ECONNRESET, "reset"), BrokenPipeError(errno.EPIPE, "pipe"),
+                        ConnectionAbortedError(errno.ECONNABORTED, "aborted"), BlockingIOError(errno.EAGAIN, "again"), InterruptedError(errno.EINTR, "intr"), serial.SerialException("port gone")):
+
+                class BadWriter(FakeWriter):
+                    def write(self, b, _exc=exc, _where=where):
+                        if _where == "write":
+                            raise _exc
+                        self.data += b
+
+                    async def drain(self, _exc=exc, _where=where):
+                        if _where == "drain":
+                            raise _exc
+
+                reader = asyncio.StreamReader(loop=loop)
+                tw, _ = connect(kind, loop, lambda: (reader, BadWriter()))
+                k, v = run(tw.write("1;1;1;0;2;x\n"))
+                if not (k == "raise" and isinstance(v, TransportError)):
+                    bad(f"write-error:{type(exc).__name__}", f"writer.{where}() raising {exc!r}: write gave {k} {v!r}")
+        # a read that was waiting is cancelled (the application's timeout); lines that arrive afterwards are still read
+        for rounds in (1, 2):
+            reader = asyncio.StreamReader(loop=loop)
+            tr, _ = connect(kind, loop, lambda: (reader, FakeWriter()))
+            for _ in range(rounds):
+                pend = loop.create_task(tr.read())
+                loop.run_ready()
+                pend.cancel()
+                loop.run_ready()
+                if not pend.cancelled():
+                    bad("cancelled-read", f"a read cancelled while waiting ended with {pend!r}")
+            reader.feed_data(b"5;255;3;0;9;")
+            pend = loop.create_task(tr.read())
+            loop.run_ready()
+            pend.cancel()
+            loop.run_ready()
+            reader.feed_data(b"late\n6;255;3;0;9;next\n")
+            for want in ("5;255;3;0;9;late", "6;255;3;0;9;next"):
+                k, v = run(tr.read())
+                if k != "ok" or v.rstrip("\n") != want:
+                    bad("read-after-cancelled-read", f"after {rounds + 1} reads were cancelled while waiting (a timeout around read), the next read gave {k} {v!r}, expected {want!r}")
+                    break
         # write errors: drain raising OSError
         class BadDrain(FakeWriter):
             async def drain(self):
